@@ -589,4 +589,468 @@ theorem q_drainStash (fuel : Nat) (s : Sess) (stash : List (Int × InMsg)) (last
       · exact h1
       · exact h1.trans0 (ih _ _ _ (by rw [h1.curResend]; exact h))
 
+
+/-! ## exact results on the gap branch -/
+
+/-- EndSeqNo of a ResendRequest for `[b, e]`: the chunk end when a chunk size smaller than the gap is configured, else "infinity" -/
+def chunkEnd (cfg : Cfg) (b e : Int) : Int :=
+  if cfg.chunk ≠ 0 ∧ b + cfg.chunk - 1 < e then b + cfg.chunk - 1 else infinityEnd cfg
+/-- the end of the chunk currently requested (0 = the whole rest was requested) -/
+def chunkCur (cfg : Cfg) (b e : Int) : Int :=
+  if cfg.chunk ≠ 0 ∧ b + cfg.chunk - 1 < e then b + cfg.chunk - 1 else 0
+def rrMsg (cfg : Cfg) (b e : Int) : OutMsg := mkOut "2" [(7, toString b), (16, toString (chunkEnd cfg b e))]
+
+theorem sendResendRequest_eq (s : Sess) (b e : Int) :
+    sendResendRequest s b e = (sendInReplyTo s (rrMsg s.cfg b e), chunkCur s.cfg b e, e) := by
+  unfold sendResendRequest rrMsg chunkEnd chunkCur
+  by_cases hc : s.cfg.chunk = 0
+  · simp [hc]
+  · by_cases hlt : b + (s.cfg.chunk : Int) - 1 < e
+    · simp [hc, hlt]
+    · simp [hc, hlt]
+
+theorem timeGate_none (s : Sess) (m : InMsg) (ht : (curResend s).isSome = true ∨ checkSendingTime s m = none) :
+    (if (curResend s).isSome = true then none else checkSendingTime s m) = none := by
+  rcases ht with h | h
+  · simp [h]
+  · simp [h]
+
+theorem checkTooLow_ge (s : Sess) (m : InMsg) (n : Int) (hn : getInt m 34 = .val n) (h : s.store.target ≤ n) : checkTooLow s m = none := by
+  unfold checkTooLow
+  simp only [hn]
+  split
+  · omega
+  · rfl
+
+theorem checkTooHigh_gt (s : Sess) (m : InMsg) (n : Int) (hn : getInt m 34 = .val n) (h : n > s.store.target) :
+    checkTooHigh s m = some (.tooHigh n s.store.target) := by
+  unfold checkTooHigh
+  simp only [hn, h, if_true]
+
+theorem checkTooHigh_le (s : Sess) (m : InMsg) (n : Int) (hn : getInt m 34 = .val n) (h : n ≤ s.store.target) : checkTooHigh s m = none := by
+  unfold checkTooHigh
+  simp only [hn]
+  split
+  · omega
+  · rfl
+
+/-- a message that passes the identity/time gates with a number above the expected one: the pipeline reports the gap, nothing else happens -/
+theorem verifySelect_high (s : Sess) (m : InMsg) (n : Int) (ai : Bool)
+    (hb : checkBeginString s m = none) (hc : checkCompID s m = none)
+    (ht : (curResend s).isSome = true ∨ checkSendingTime s m = none)
+    (hn : getInt m 34 = .val n) (hgt : n > s.store.target) :
+    verifySelect s m true true ai = (s, some (.tooHigh n s.store.target)) := by
+  unfold verifySelect
+  simp only [hb, hc, timeGate_none s m ht, if_true, checkTooLow_ge s m n hn (by omega), checkTooHigh_gt s m n hn hgt]
+
+/-- … with the expected number: the pipeline goes on to the validator and the application -/
+theorem verifySelect_exact (s : Sess) (m : InMsg) (ai : Bool)
+    (hb : checkBeginString s m = none) (hc : checkCompID s m = none)
+    (ht : (curResend s).isSome = true ∨ checkSendingTime s m = none)
+    (hn : getInt m 34 = .val s.store.target) :
+    verifySelect s m true true ai = if ai then verifyAppImpl s m else (s, none) := by
+  unfold verifySelect
+  simp only [hb, hc, timeGate_none s m ht, if_true, checkTooLow_ge s m _ hn (Int.le_refl _), checkTooHigh_le s m _ hn (Int.le_refl _)]
+
+/-- kinds whose MsgSeqNum is checked against the expected number before anything else happens -/
+structure SeqGated (m : InMsg) : Prop where
+  notLogon : kindOf m ≠ "A"
+  notLogout : kindOf m ≠ "5"
+  notResend : kindOf m ≠ "2"
+  gapFill : kindOf m = "4" → getBool m 123 = .val true
+
+theorem inSessionFixMsgIn_high (s : Sess) (m : InMsg) (n : Int)
+    (hb : checkBeginString s m = none) (hc : checkCompID s m = none)
+    (ht : (curResend s).isSome = true ∨ checkSendingTime s m = none)
+    (hk : SeqGated m) (hn : getInt m 34 = .val n) (hgt : n > s.store.target) :
+    inSessionFixMsgIn s m = processReject s m (.tooHigh n s.store.target) := by
+  have hv := verifySelect_high s m n true hb hc ht hn hgt
+  unfold inSessionFixMsgIn
+  have h1 : (kindOf m == "A") = false := by simpa using hk.notLogon
+  have h2 : (kindOf m == "5") = false := by simpa using hk.notLogout
+  have h3 : (kindOf m == "2") = false := by simpa using hk.notResend
+  simp only [h1, h2, h3, Bool.false_eq_true, if_false]
+  by_cases h4 : kindOf m = "4"
+  · simp only [h4, beq_self_eq_true, if_true]
+    unfold handleSequenceReset
+    simp only [hk.gapFill h4, hv]
+  · have h4' : (kindOf m == "4") = false := by simpa using h4
+    simp only [h4', Bool.false_eq_true, if_false]
+    by_cases h5 : kindOf m = "1"
+    · simp only [h5, beq_self_eq_true, if_true]
+      unfold handleTestRequest
+      simp only [hv]
+    · have h5' : (kindOf m == "1") = false := by simpa using h5
+      simp only [h5', Bool.false_eq_true, if_false, hv]
+
+theorem processReject_high_fresh (s : Sess) (m : InMsg) (n t : Int) (h : curResend s = none) :
+    processReject s m (.tooHigh n t) =
+      (sendInReplyTo s (rrMsg s.cfg t (n - 1)), .resend [(n, m)] (chunkCur s.cfg t (n - 1)) (n - 1)) := by
+  simp only [processReject, h, sendResendRequest_eq, stashInsert, List.filter_nil]
+
+theorem processReject_high_rec (s : Sess) (m : InMsg) (n t : Int) (st : List (Int × InMsg)) (c f : Int)
+    (h : curResend s = some (st, c, f)) :
+    processReject s m (.tooHigh n t) = (s, .resend (stashInsert st n m) c f) := by
+  simp only [processReject, h]
+
+
+/-! ## administrative replies in a logged-on state, field by field -/
+
+def persistObs (cfg : Cfg) (m : OutMsg) : Obs := if cfg.persist then .saved m.seq m.kind (resendable m) else .incS
+
+/-- the numbered message -/
+def numbered (s : Sess) (m : OutMsg) : OutMsg := { m with seq := s.store.sender }
+
+theorem prep_admin (s : Sess) (m : OutMsg) (hk : isAdminKind m.kind = true) (hA : (m.kind == "A") = false) :
+    prep s m = (some (numbered s m), s.persistOut s.store.sender (numbered s m)) := by
+  unfold prep numbered
+  simp only [hk, hA, if_true, Bool.false_and, Bool.false_eq_true, if_false]
+
+theorem sendInReplyTo_admin (s : Sess) (m : OutMsg) (hk : isAdminKind m.kind = true) (hA : (m.kind == "A") = false)
+    (hl : s.st.loggedOn = true) :
+    sendInReplyTo s m = sendQueued ((s.persistOut s.store.sender (numbered s m)).setToSend (s.toSend ++ [numbered s m])) := by
+  unfold sendInReplyTo
+  simp only [hl, Bool.not_true, Bool.false_eq_true, if_false, prep_admin s m hk hA]
+  congr 1
+  unfold Sess.persistOut; split <;> rfl
+
+structure AdminSent (s : Sess) (m : OutMsg) (s' : Sess) : Prop where
+  st : s'.st = s.st
+  cfg : s'.cfg = s.cfg
+  hb : s'.hb = s.hb
+  target : s'.store.target = s.store.target
+  sender : s'.store.sender = s.store.sender + 1
+  queue : s'.toSend = if s.out then [] else s.toSend ++ [numbered s m]
+  log : s'.log.reverse = s.log.reverse ++ persistObs s.cfg (numbered s m) ::
+          (if s.out then (s.toSend ++ [numbered s m]).map Obs.wire else [])
+  out : s'.out = s.out
+  inbox : s'.inbox = s.inbox
+  inboxOpen : s'.inboxOpen = s.inboxOpen
+
+/-- a non-Logon administrative message sent from a logged-on state: numbered with the next outbound number, handed to the
+    store, and written after everything already queued (or queued when there is no connection) -/
+theorem adminSent (s : Sess) (m : OutMsg) (hk : isAdminKind m.kind = true) (hA : (m.kind == "A") = false)
+    (hl : s.st.loggedOn = true) : AdminSent s m (sendInReplyTo s m) := by
+  rw [sendInReplyTo_admin s m hk hA hl]
+  unfold sendQueued Sess.persistOut
+  by_cases hp : s.cfg.persist = true <;> by_cases ho : s.out = true <;>
+    (constructor <;> simp [hp, ho, Sess.setToSend, Sess.emit, numbered, persistObs])
+
+/-! ## lifting `fixMsgInCore` results to whole events -/
+
+theorem connected_sessionTime (st : SState) (h : st.connected = true) : st.sessionTime = true := by
+  cases st <;> simp_all [SState.connected, SState.sessionTime]
+
+theorem loggedOn_connected (st : SState) (h : st.loggedOn = true) : st.connected = true := by
+  cases st <;> simp_all [SState.connected, SState.loggedOn]
+
+theorem checkSessionTime_noop (fuel : Nat) (s : Sess) (h : s.st.sessionTime = true) : checkSessionTime fuel s true true = s := by
+  cases fuel with
+  | zero => unfold checkSessionTime; rfl
+  | succ n => unfold checkSessionTime; simp [h]
+
+theorem setState_connected (fuel : Nat) (s : Sess) (next : SState) (h : next.connected = true) : setState fuel s next = s.setSt next := by
+  cases fuel with
+  | zero => unfold setState; rfl
+  | succ n => unfold setState; simp [h]
+
+theorem incoming_connected (fuel : Nat) (s : Sess) (m : InMsg) (hc : s.st.connected = true)
+    (hnx : (fixMsgInCore s m).2.connected = true) :
+    incoming (fuel + 1) s (some m) =
+      ((fixMsgInCore s m).1.setSt (fixMsgInCore s m).2).emit (.armPeer (1200 * (fixMsgInCore s m).1.hb)) := by
+  unfold incoming
+  simp only [checkSessionTime_noop fuel s (connected_sessionTime _ hc), hc, Bool.not_true, Bool.false_eq_true, if_false]
+  rw [setState_connected fuel _ _ hnx]
+  rfl
+
+theorem fuelOf_succ (s : Sess) : fuelOf s = (4 * s.inbox.length + 7) + 1 := rfl
+
+/-- `Incoming` with a message on a connected session whose handler leaves it connected: the handler's result, the new
+    state tag, and the peer timer re-armed last -/
+theorem step_incoming (s : Sess) (m : InMsg) (hc : s.st.connected = true)
+    (hnx : (fixMsgInCore s.clearLog m).2.connected = true) :
+    step s (.incomingMsg (some m)) =
+      ((((fixMsgInCore s.clearLog m).1.setSt (fixMsgInCore s.clearLog m).2).clearLog),
+       (fixMsgInCore s.clearLog m).1.log.reverse ++ [.armPeer (1200 * (fixMsgInCore s.clearLog m).1.hb)], "ok") := by
+  unfold step stepCore
+  simp only [fuelOf_succ]
+  rw [incoming_connected _ s.clearLog m hc hnx]
+  simp [Sess.emit, Sess.clearLog, Sess.setSt]
+
+
+theorem step_incoming_eq (s : Sess) (m : InMsg) (hc : s.st.connected = true) (r : Sess × SState)
+    (hr : fixMsgInCore s.clearLog m = r) (hnx : r.2.connected = true) :
+    step s (.incomingMsg (some m)) = ((r.1.setSt r.2).clearLog, r.1.log.reverse ++ [.armPeer (1200 * r.1.hb)], "ok") := by
+  subst hr
+  exact step_incoming s m hc hnx
+
+
+/-! ## the recovery state: what happens after the in-session handler -/
+
+/-- the stash the recovery state sees afterwards: `processReject` stores into the *current* state's map -/
+def sharedStash (s : Sess) (nx : SState) (stash : List (Int × InMsg)) : List (Int × InMsg) :=
+  match nx, curResend s with
+  | .resend st' _ _, some _ => st'
+  | _, _ => stash
+
+def chunkPart (s : Sess) (stash : List (Int × InMsg)) (fin : Int) : Sess × SState :=
+  let (s, c, f) := sendResendRequest s s.store.target fin
+  (s, .resend stash c f)
+
+def drainPart (s : Sess) (nx : SState) (stash : List (Int × InMsg)) : Sess × SState :=
+  let shared := (curResend s).isSome
+  match drainStash (stash.length + 1) s stash nx with
+  | (s, .resend st' c f, rest) => (s, .resend (if shared then rest else st') c f)
+  | (s, nx, _) => (s, nx)
+
+def gapFillFlag (m : InMsg) : Bool := match getBool m 123 with | .val b => b | _ => false
+
+/-- the bookkeeping of `resendFixMsgIn` after the in-session handler has run and left the session logged on (same text,
+    cut into named pieces) -/
+def resendBook (s : Sess) (nx : SState) (stash : List (Int × InMsg)) (cur fin : Int) (m : InMsg) : Sess × SState :=
+  if cur != 0 && cur < s.store.target then chunkPart s stash fin
+  else
+    match getBool m 123 with
+    | .garbled => (s, .latent)
+    | _ =>
+      if gapFillFlag m && cur != 0 && cur == s.store.target then chunkPart s stash fin
+      else if fin ≥ s.store.target then (s, .resend stash cur fin)
+      else drainPart s nx stash
+
+theorem resendFixMsgIn_eq (s : Sess) (stash : List (Int × InMsg)) (cur fin : Int) (m : InMsg) :
+    resendFixMsgIn s stash cur fin m =
+      if !(inSessionFixMsgIn s m).2.loggedOn then inSessionFixMsgIn s m
+      else resendBook (inSessionFixMsgIn s m).1 (inSessionFixMsgIn s m).2
+            (sharedStash (inSessionFixMsgIn s m).1 (inSessionFixMsgIn s m).2 stash) cur fin m := by
+  unfold resendFixMsgIn resendBook chunkPart drainPart sharedStash gapFillFlag
+  generalize inSessionFixMsgIn s m = r
+  obtain ⟨s', nx⟩ := r
+  simp only []
+  generalize getBool m 123 = g
+  split
+  · rfl
+  · split
+    · rfl
+    · cases g <;> rfl
+
+
+theorem chunkPart_eq (s : Sess) (stash : List (Int × InMsg)) (fin : Int) :
+    chunkPart s stash fin =
+      (sendInReplyTo s (rrMsg s.cfg s.store.target fin), .resend stash (chunkCur s.cfg s.store.target fin) fin) := by
+  unfold chunkPart; rw [sendResendRequest_eq]
+
+theorem q_drainPart (s : Sess) (nx : SState) (stash : List (Int × InMsg)) (h : (curResend s).isSome = true) :
+    Q 0 s (drainPart s nx stash).1 := by
+  unfold drainPart
+  have := q_drainStash (stash.length + 1) s stash nx h
+  generalize drainStash (stash.length + 1) s stash nx = r at this
+  obtain ⟨a, b, c⟩ := r
+  simp only []
+  split <;> simp_all
+
+/-- outcome of the recovery bookkeeping -/
+inductive BookOut (s : Sess) (nx : SState) (stash : List (Int × InMsg)) (cur fin : Int) (m : InMsg) : Sess × SState → Prop
+  | chunk (hc : cur ≠ 0) (hle : cur ≤ s.store.target) :
+      BookOut s nx stash cur fin m
+        (sendInReplyTo s (rrMsg s.cfg s.store.target fin), .resend stash (chunkCur s.cfg s.store.target fin) fin)
+  | garbled (hg : getBool m 123 = .garbled) : BookOut s nx stash cur fin m (s, .latent)
+  | stay (h1 : cur = 0 ∨ s.store.target ≤ cur) (h2 : s.store.target ≤ fin) : BookOut s nx stash cur fin m (s, .resend stash cur fin)
+  | drain (h1 : cur = 0 ∨ s.store.target ≤ cur) (h2 : fin < s.store.target) : BookOut s nx stash cur fin m (drainPart s nx stash)
+
+theorem resendBook_out (s : Sess) (nx : SState) (stash : List (Int × InMsg)) (cur fin : Int) (m : InMsg) :
+    BookOut s nx stash cur fin m (resendBook s nx stash cur fin m) := by
+  unfold resendBook
+  by_cases h1 : (cur != 0 && decide (cur < s.store.target)) = true
+  · rw [if_pos h1, chunkPart_eq]
+    simp only [Bool.and_eq_true, bne_iff_ne, ne_eq, decide_eq_true_eq] at h1
+    exact .chunk h1.1 (by omega)
+  · rw [if_neg h1]
+    have h1' : cur = 0 ∨ s.store.target ≤ cur := by
+      simp only [Bool.and_eq_true, bne_iff_ne, ne_eq, decide_eq_true_eq, not_and, Int.not_lt] at h1
+      by_cases hc : cur = 0
+      · exact Or.inl hc
+      · exact Or.inr (h1 hc)
+    have key : BookOut s nx stash cur fin m
+        (if (gapFillFlag m && cur != 0 && cur == s.store.target) = true then chunkPart s stash fin
+         else if fin ≥ s.store.target then (s, .resend stash cur fin) else drainPart s nx stash) := by
+      by_cases h2 : (gapFillFlag m && cur != 0 && cur == s.store.target) = true
+      · rw [if_pos h2, chunkPart_eq]
+        simp only [Bool.and_eq_true, bne_iff_ne, ne_eq, beq_iff_eq] at h2
+        exact .chunk h2.1.2 (by omega)
+      · rw [if_neg h2]
+        by_cases h3 : fin ≥ s.store.target
+        · rw [if_pos h3]; exact .stay h1' h3
+        · rw [if_neg h3]; exact .drain h1' (by omega)
+    cases hg : getBool m 123 with
+    | garbled => exact .garbled hg
+    | missing => exact key
+    | val b => exact key
+
+theorem fixMsgInCore_rec (s : Sess) (m : InMsg) (stash : List (Int × InMsg)) (cur fin : Int)
+    (h : curResend s = some (stash, cur, fin)) : fixMsgInCore s m = resendFixMsgIn s stash cur fin m := by
+  unfold curResend at h
+  unfold fixMsgInCore
+  split at h
+  · rename_i st c f heq
+    simp only [Option.some.injEq, Prod.mk.injEq] at h
+    obtain ⟨rfl, rfl, rfl⟩ := h
+    simp only [heq]
+  · rename_i st c f heq
+    split at h
+    · simp only [Option.some.injEq, Prod.mk.injEq] at h
+      obtain ⟨rfl, rfl, rfl⟩ := h
+      simp only [heq]
+    · cases h
+  · cases h
+
+/-- shape of one message processed in a recovery state: everything up to `s1` creates no ResendRequest; then possibly the
+    request for the next chunk, beginning at the number expected at that moment -/
+theorem resendFixMsgIn_shape (s : Sess) (stash : List (Int × InMsg)) (cur fin : Int) (m : InMsg)
+    (h : (curResend s).isSome = true) :
+    ∃ s1, Q 0 s s1 ∧
+      ((resendFixMsgIn s stash cur fin m).1 = s1 ∨
+       (cur ≠ 0 ∧ cur ≤ s1.store.target ∧ ∃ stash',
+          resendFixMsgIn s stash cur fin m =
+            (sendInReplyTo s1 (rrMsg s1.cfg s1.store.target fin), .resend stash' (chunkCur s1.cfg s1.store.target fin) fin))) := by
+  rw [resendFixMsgIn_eq]
+  have hq := q_inSessionFixMsgIn_rec s m h
+  generalize inSessionFixMsgIn s m = r at hq
+  obtain ⟨s', nx⟩ := r
+  simp only [] at hq ⊢
+  split
+  · exact ⟨s', hq, Or.inl rfl⟩
+  · have hb := resendBook_out s' nx (sharedStash s' nx stash) cur fin m
+    generalize resendBook s' nx (sharedStash s' nx stash) cur fin m = out at hb
+    cases hb with
+    | chunk hc hle => exact ⟨s', hq, Or.inr ⟨hc, hle, _, rfl⟩⟩
+    | garbled _ => exact ⟨s', hq, Or.inl rfl⟩
+    | stay h1 h2 => exact ⟨s', hq, Or.inl rfl⟩
+    | drain h1 h2 =>
+      exact ⟨_, hq.trans0 (q_drainPart s' nx _ (by rw [hq.curResend]; exact h)), Or.inl rfl⟩
+
+theorem q_resendFixMsgIn (s : Sess) (stash : List (Int × InMsg)) (cur fin : Int) (m : InMsg)
+    (h : (curResend s).isSome = true) :
+    Q (if cur ≠ 0 then 1 else 0) s (resendFixMsgIn s stash cur fin m).1 := by
+  obtain ⟨s1, hq, hor⟩ := resendFixMsgIn_shape s stash cur fin m h
+  rcases hor with h1 | ⟨hc, _, st', h2⟩
+  · rw [h1]; exact hq.mono (Nat.zero_le _)
+  · rw [h2]; simp only [hc, ne_eq, not_false_eq_true, if_true]
+    have := hq.trans (q_sendInReplyTo s1 (rrMsg s1.cfg s1.store.target fin))
+    simpa [rrK, rrMsg, isRR, mkOut] using this
+
+
+/-! ## whole events with an empty inbound buffer -/
+
+theorem drainIn_nil (fuel : Nat) (s : Sess) (h : s.inbox = []) : drainIn fuel s = s := by
+  cases fuel with
+  | zero => unfold drainIn; rfl
+  | succ n => unfold drainIn; simp [h]
+
+theorem discMid_inbox (s : Sess) : (discMid s).inbox = s.inbox := by
+  unfold discMid
+  simp only []
+  repeat' split
+  all_goals rfl
+
+theorem rrCount_discMid (s : Sess) : rrCount (discMid s) ≤ rrCount s := by
+  unfold discMid
+  simp only []
+  generalize hs1 : (if (s.st.loggedOn || match s.st with | .logout => true | .logon => s.cfg.initiator | _ => false) = true
+    then s.emit Obs.onLogout else s) = s1
+  have h1 : Q 0 s s1 := by rw [← hs1]; q_peel
+  generalize hs2 : (if s1.cfg.resetOnDisconnect = true then dropAndReset s1 else s1) = s2
+  have h2 : Q 0 s s2 := by rw [← hs2]; q_peel
+  have := h2.rr
+  split
+  · have h3 : rrCount ((s2.setOut false).emit .closed) = rrCount s2 := by
+      simp [rrCount, Sess.emit, Sess.setOut, wiresOf_cons_notWire _ _ (rfl : notWire .closed = true)]
+    omega
+  · omega
+
+theorem rrCount_setState (fuel : Nat) (s : Sess) (nx : SState) (h : s.inbox = []) : rrCount (setState fuel s nx) ≤ rrCount s := by
+  cases fuel with
+  | zero => unfold setState; exact Nat.le_refl _
+  | succ n =>
+    unfold setState
+    simp only []
+    split
+    · have key : rrCount (if s.st.connected = true then (drainIn n (discMid (drainIn n s))).closeInbox else s) ≤ rrCount s := by
+        split
+        · rw [drainIn_nil n s h, drainIn_nil n _ (by rw [discMid_inbox]; exact h)]
+          exact rrCount_discMid s
+        · exact Nat.le_refl _
+      generalize (if s.st.connected = true then (drainIn n (discMid (drainIn n s))).closeInbox else s) = x at key
+      split <;> exact key
+    · exact Nat.le_refl _
+
+theorem incoming_some (fuel : Nat) (s : Sess) (m : InMsg) (hc : s.st.connected = true) :
+    incoming (fuel + 1) s (some m) =
+      (setState fuel (fixMsgInCore s m).1 (fixMsgInCore s m).2).emit
+        (.armPeer (1200 * (setState fuel (fixMsgInCore s m).1 (fixMsgInCore s m).2).hb)) := by
+  unfold incoming
+  simp only [checkSessionTime_noop fuel s (connected_sessionTime _ hc), hc, Bool.not_true, Bool.false_eq_true, if_false]
+
+/-- ResendRequests visible after an event: written during it or still queued -/
+def rrAfter (r : Sess × List Obs × String) : Nat := (wiresOf r.2.1).countP isRR + r.1.toSend.countP isRR
+
+theorem rrAfter_step (s : Sess) (e : Ev) : rrAfter (step s e) = rrCount (stepCore s.clearLog e).1 := by
+  simp [rrAfter, step, rrCount, wiresOf_reverse, Sess.clearLog]
+
+theorem rrCount_clearLog (s : Sess) : rrCount s.clearLog = s.toSend.countP isRR := by
+  simp [rrCount, Sess.clearLog, wiresOf]
+
+/-- `Incoming(m)` in a recovery state with nothing buffered: at most the one next-chunk request, none at all when the
+    whole rest was requested (`cur = 0`) -/
+theorem rrAfter_incoming_rec (s : Sess) (m : InMsg) (stash : List (Int × InMsg)) (cur fin : Int)
+    (h : curResend s = some (stash, cur, fin)) (hi : s.inbox = []) :
+    rrAfter (step s (.incomingMsg (some m))) ≤ s.toSend.countP isRR + (if cur ≠ 0 then 1 else 0) := by
+  rw [rrAfter_step]
+  have hcs : curResend s.clearLog = some (stash, cur, fin) := h
+  have hconn : s.clearLog.st.connected = true := by
+    unfold curResend at hcs
+    split at hcs <;> simp_all [SState.connected]
+  have hq := q_resendFixMsgIn s.clearLog stash cur fin m (by rw [hcs]; rfl)
+  rw [← fixMsgInCore_rec s.clearLog m stash cur fin hcs] at hq
+  simp only [stepCore, fuelOf_succ]
+  rw [incoming_some _ _ _ hconn]
+  have h1 := rrCount_setState (4 * s.clearLog.inbox.length + 7) (fixMsgInCore s.clearLog m).1 (fixMsgInCore s.clearLog m).2
+    (by rw [hq.inbox]; exact hi)
+  have h2 := hq.rr
+  rw [rrCount_clearLog] at h2
+  generalize setState _ (fixMsgInCore s.clearLog m).1 (fixMsgInCore s.clearLog m).2 = x at h1 ⊢
+  have h3 : rrCount (x.emit (.armPeer (1200 * x.hb))) = rrCount x := by
+    simp [rrCount, Sess.emit, wiresOf_cons_notWire _ _ (rfl : notWire (.armPeer _) = true)]
+  omega
+
+
+theorem sharedStash_rec (s : Sess) (st' stash : List (Int × InMsg)) (c f : Int) (h : (curResend s).isSome = true) :
+    sharedStash s (.resend st' c f) stash = st' := by
+  unfold sharedStash
+  cases hc : curResend s with
+  | none => rw [hc] at h; cases h
+  | some v => rfl
+
+/-- a too-high message in a recovery state (recovery not yet complete: `target ≤ fin`): it is added to the stash; the
+    session itself is untouched unless the current chunk has been satisfied, in which case the next chunk is requested -/
+theorem resendFixMsgIn_high (s : Sess) (stash : List (Int × InMsg)) (cur fin : Int) (m : InMsg) (n : Int)
+    (h : curResend s = some (stash, cur, fin))
+    (hb : checkBeginString s m = none) (hc : checkCompID s m = none)
+    (hk : SeqGated m) (hn : getInt m 34 = .val n) (hgt : n > s.store.target)
+    (hg : getBool m 123 ≠ .garbled) (hfin : s.store.target ≤ fin) :
+    resendFixMsgIn s stash cur fin m = (s, .resend (stashInsert stash n m) cur fin) ∨
+    (cur ≠ 0 ∧ cur ≤ s.store.target ∧
+      resendFixMsgIn s stash cur fin m =
+        (sendInReplyTo s (rrMsg s.cfg s.store.target fin),
+         .resend (stashInsert stash n m) (chunkCur s.cfg s.store.target fin) fin)) := by
+  have hsome : (curResend s).isSome = true := by rw [h]; rfl
+  rw [resendFixMsgIn_eq, inSessionFixMsgIn_high s m n hb hc (Or.inl hsome) hk hn hgt, processReject_high_rec s m n _ stash cur fin h]
+  simp only [SState.loggedOn, Bool.not_true, Bool.false_eq_true, if_false, sharedStash_rec s _ stash cur fin hsome]
+  have hbk := resendBook_out s (.resend (stashInsert stash n m) cur fin) (stashInsert stash n m) cur fin m
+  generalize resendBook s (.resend (stashInsert stash n m) cur fin) (stashInsert stash n m) cur fin m = out at hbk
+  cases hbk with
+  | chunk hc hle => exact Or.inr ⟨hc, hle, rfl⟩
+  | garbled hg' => exact absurd hg' hg
+  | stay h1 h2 => exact Or.inl rfl
+  | drain h1 h2 => omega
+
 end Qfx.Sess
